@@ -277,7 +277,8 @@ def visit(
             else:
                 result = None
 
-        if result is None and is_edited:
+        if is_edited and (result is None or result is SKIP or result is False):
+            # (SKIP means no action when leaving, so edits made below must be kept)
             edits.append((key, node))
 
         if is_leaving:
